@@ -7,7 +7,7 @@ from props import poolcommon as pc
 from vlib.core import cz, clist, cbool
 
 MANIFEST = dict(
-    text='Theorems (Coq, all op sequences, unbounded): the LaxBoundedSemaphore methods translated from pool.py on every run equal the model; 0 <= value <= size + shrinks-in-progress for every sequence of acquire/release/grow/shrink/clear; acquire enabled iff value > 0; release is lax. Correspondence on random op sequences against the real class. Pool level: the bound is the configured size in every reachable state; a pass gives back one slot per reaped worker; an apply task that cannot be sent gives its slot back (repaired defect D26). Closed crash-free composition: free slots + jobs in flight = bound in every reachable state, all slots back at the end. Refuted with a witness (known finding): the first result of a map job frees a slot no map job took. Closed system with crashes (Model/PoolCrash.v): free slots + slot holders = bound in every reachable state, all slots back at every complete end (C10_crash_slots_account).',
+    text='Theorems (Coq, all op sequences, unbounded): the LaxBoundedSemaphore methods translated from pool.py on every run equal the model; 0 <= value <= size + shrinks-in-progress for every sequence of acquire/release/grow/shrink/clear; acquire enabled iff value > 0; release is lax. Correspondence on random op sequences against the real class. Pool level: the bound is the configured size in every reachable state; a pass gives back one slot per reaped worker; an apply task that cannot be sent gives its slot back (repaired defect D26). Closed crash-free composition: free slots + jobs in flight = bound in every reachable state, all slots back at the end. Refuted with a witness (known finding): the first result of a map job frees a slot no map job took. Closed system with crashes (Model/PoolCrash.v): free slots + slot holders = bound in every reachable state, all slots back at every complete end (C10_crash_slots_account). Closed system with hard limits (Model/PoolLimit.v): free slots + unresolved jobs + dead unreaped workers = bound on every schedule without the racy scan (C10_limit_slots_account); REFUTED with the racy scan (known finding F-C10-2, C10_quiet_pool_has_all_slots_refuted): a quiet pool with 1 of 2 slots free for ever.',
     note='Trusted: Coq kernel, translate/pykernel.py, Lib/PyVal.v (Python int/None semantics), stdlib threading.Semaphore modelled (blocking acquire = Blocked), `with cond:` sections atomic. Pool-level slot conservation is partial (see DESIGN.md 5.10).',
     technique='Coq proof over translator-regenerated kernel + differential correspondence',
     ref='5.10',
@@ -100,6 +100,8 @@ def run(res):
     pc.closed_check(res, 'C10', 120 if res.tier == 'quick' else 2000)
     # the closed system with crashes (Model/PoolCrash.v), schedules without the racy pass of the recorded C04 finding
     pc.crash_closed_check(res, 'C10', 40 if res.tier == 'quick' else 800, allow_early=False)
+    # the closed system with hard time limits, racy scans included (they re-detect the recorded finding F-C10-2)
+    pc.limit_closed_check(res, 'C10', 60 if res.tier == 'quick' else 1200, allow_racy=True)
     pc.real_scenarios(res, 'C10', [dict(kind='closed_system', n=2, jobs=12), dict(kind='closed_system', n=3, jobs=7, putlocks=True)] if res.tier == 'quick' else [dict(kind='closed_system', n=n, jobs=j, putlocks=pl) for n in (1, 2, 4) for j in (0, 1, 9, 40) for pl in (True, False)])
     res.assumptions += [
         'threading.Semaphore / Condition (stdlib) are modelled: a blocking acquire with value 0 is "Blocked"',
